@@ -354,6 +354,7 @@ func replayCall(l *Loader, fn *ssa.Function, isLemma bool, o *Obl, outDir string
 		call = fmt.Sprintf("%s(%s)", fn.Name(), strings.Join(argn, ", "))
 	}
 	nres := fn.Signature.Results().Len()
+	clauseEvaluated := false
 	if nres == 0 {
 		fmt.Fprintf(&sb, "\t%s\n\tfmt.Println(\"REPLAY-RESULT: returned\")\n", call)
 	} else {
@@ -362,6 +363,13 @@ func replayCall(l *Loader, fn *ssa.Function, isLemma bool, o *Obl, outDir string
 			rn = append(rn, fmt.Sprintf("r%d", i))
 		}
 		fmt.Fprintf(&sb, "\t%s := %s\n\tfmt.Println(\"REPLAY-RESULT:\", %s)\n", strings.Join(rn, ", "), call, strings.Join(rn, ", "))
+		if isLemma && len(o.FixedArgs) == 0 && fn.Signature.Recv() == nil {
+			// evaluate the failed clause itself on the observed results
+			if body, ok := lemmaClauseEval(fn, o.Src, argn, rn, pkg.Pkg); ok {
+				sb.WriteString(body)
+				clauseEvaluated = true
+			}
+		}
 	}
 	sb.WriteString("}\n")
 	src := sb.String()
@@ -373,7 +381,9 @@ func replayCall(l *Loader, fn *ssa.Function, isLemma bool, o *Obl, outDir string
 		rr.Note = "replay test did not run: " + firstLines(out, 6)
 		return rr
 	}
-	if isLemma {
+	if isLemma && clauseEvaluated {
+		rr.Confirmed = strings.Contains(out, "REPLAY-CLAUSE: false") || strings.Contains(out, "REPLAY-PANIC:")
+	} else if isLemma {
 		rr.Confirmed = strings.Contains(out, "REPLAY-RESULT: false") || strings.Contains(out, "REPLAY-PANIC:")
 	} else {
 		rr.Confirmed = strings.Contains(out, "REPLAY-PANIC:")
